@@ -35,7 +35,7 @@ def grid_same(dmax):
 
 
 @scenario('C03', 'binop.same', ['torchtt._tt_base.TT.__add__', 'torchtt._tt_base.TT.__sub__', 'torchtt._tt_base.TT.__mul__'],
-          quick=grid_same(3), thorough=grid_same(5), replay='tt_op')
+          quick=grid_same(3), thorough=grid_same(5), dtypes=('float64', 'float32'), replay='tt_op')
 def binop_same(ob, op, d):
     x = ob.tt('x', d)
     y = ob.tt('y', d, N=x.N_)
@@ -49,7 +49,7 @@ def binop_same(ob, op, d):
     else:
         want = [1] + [x.R_[k] * y.R_[k] for k in range(1, d)] + [1]
     all_eq(ob, 'R', f['R'], want, 'rank')
-    prove_dtype(ob, r, 'float64')
+    prove_dtype(ob, r, ob.dt())
     idx = mode_index(ob, r)
     ob.prove_eq('value', val(ob, r, idx), dense_op(op, val(ob, x, idx), val(ob, y, idx)))
     ob.frame()
@@ -65,7 +65,7 @@ def grid_bcast(dmax):
 
 
 @scenario('C03', 'binop.broadcast', ['torchtt._tt_base.TT.__add__', 'torchtt._tt_base.TT.__sub__', 'torchtt._tt_base.TT.__mul__'],
-          quick=grid_bcast(3), thorough=grid_bcast(5), replay='tt_op', max_paths=600)
+          quick=grid_bcast(3), thorough=grid_bcast(5), dtypes=('float64', 'float32'), replay='tt_op', max_paths=600)
 def binop_broadcast(ob, op, dx, dy):
     """torch-style broadcasting: y has at most as many modes as x; each aligned mode of y equals x's or is 1"""
     ex = ob.ex
@@ -85,7 +85,7 @@ def binop_broadcast(ob, op, dx, dy):
         want.append(x.R_[k] + ry if op in ('add', 'sub') else x.R_[k] * ry)
     want.append(1)
     all_eq(ob, 'R', f['R'], want, 'rank')
-    prove_dtype(ob, r, 'float64')
+    prove_dtype(ob, r, ob.dt())
     idx = mode_index(ob, r)
     yidx = []
     for k in range(dy):
@@ -132,7 +132,7 @@ def scalar_body(ob, op, kind, d, ttm=False, prop_dtype='float64'):
     all_eq(ob, 'N', f['N'], x.N_)
     if ttm:
         all_eq(ob, 'M', f['M'], x.M_)
-    want_dt = 'complex128' if kind == 'complex' else 'float64'
+    want_dt = ob.dt()
     prove_dtype(ob, r, want_dt)
     idx = mode_index(ob, r)
     xv = val(ob, x, idx)
@@ -143,14 +143,14 @@ def scalar_body(ob, op, kind, d, ttm=False, prop_dtype='float64'):
 
 @scenario('C03', 'scalar', ['torchtt._tt_base.TT.__add__', 'torchtt._tt_base.TT.__radd__', 'torchtt._tt_base.TT.__sub__', 'torchtt._tt_base.TT.__rsub__',
                             'torchtt._tt_base.TT.__mul__', 'torchtt._tt_base.TT.__rmul__', 'torchtt._tt_base.TT.__truediv__'],
-          quick=grid_scalar(2), thorough=grid_scalar(5), replay='tt_op')
+          quick=grid_scalar(2), thorough=grid_scalar(5), dtypes=('float64', 'float32'), replay='tt_op')
 def scalar(ob, op, kind, d):
     scalar_body(ob, op, kind, d)
 
 
 @scenario('C03', 'unary', ['torchtt._tt_base.TT.__neg__', 'torchtt._tt_base.TT.__pos__'],
           quick=[dict(op=o, d=d) for o in ('neg', 'pos') for d in (1, 2, 3)],
-          thorough=[dict(op=o, d=d) for o in ('neg', 'pos') for d in range(1, 6)], replay='unary')
+          thorough=[dict(op=o, d=d) for o in ('neg', 'pos') for d in range(1, 6)], dtypes=('float64', 'float32'), replay='unary')
 def unary(ob, op, d):
     ex = ob.ex
     x = ob.tt('x', d)
@@ -160,7 +160,7 @@ def unary(ob, op, d):
     f = fields(ob, r)
     all_eq(ob, 'N', f['N'], x.N_)
     all_eq(ob, 'R', f['R'], x.R_, 'rank')
-    prove_dtype(ob, r, 'float64')
+    prove_dtype(ob, r, ob.dt())
     idx = mode_index(ob, r)
     xv = val(ob, x, idx)
     ob.prove_eq('value', val(ob, r, idx), -xv if op == 'neg' else xv)
@@ -186,7 +186,7 @@ def grid_kron(dmax):
 
 
 @scenario('C03', 'kron', ['torchtt._tt_base.TT.__pow__', 'torchtt._tt_base.TT.__rpow__', 'torchtt._extras.kron'],
-          quick=grid_kron(3), thorough=grid_kron(5), replay='tt_op')
+          quick=grid_kron(3), thorough=grid_kron(5), dtypes=('float64', 'float32'), replay='tt_op')
 def kron(ob, via, d1, d2, ttm):
     """x ** y is the outer (tensor Kronecker) product: modes are concatenated, value is the product"""
     ex = ob.ex
